@@ -61,8 +61,8 @@ def deliver (F : TFacts) (cfg : BaseCfg) (outbox : Iri) (asValue : J) (raw : Opt
     if cfg.federated && r.1 then deliverS2S F outbox r.2 else pure r.2
 
 /-- the federating default callbacks get `AddNewIDs` and `Deliver` as side channels -/
-def fedCbFull (F : TFacts) : CbConfig → Iri → String → J → Prog Unit :=
-  fedCb F (addNewIDs F) (fun outbox a => do let _ ← deliverS2S F outbox a; pure ())
+def fedCbFull (F : TFacts) : CbConfig → Iri → String → J → Prog J :=
+  fedCb F (addNewIDs F) (deliverS2S F)
 
 /-- a call through the (possibly nil) FederatingProtocol / SocialProtocol of the sideEffectActor -/
 def viaS2S (cfg : BaseCfg) (site : String) (p : Prog α) : Prog α :=
@@ -90,8 +90,8 @@ def postInboxScheme (F : TFacts) (cfg : BaseCfg) (r : Request) : Prog Handled :=
   | .error .objectRequired => do Op.writeHeader 400; pure .handled
   | .error .targetRequired => do Op.writeHeader 400; pure .handled
   | .error e => Prog.fail e
-  | .ok _ =>
-  inboxForwarding F r.box v
+  | .ok v' =>
+  inboxForwarding F r.box v'
   Op.writeHeader 200
   pure .handled
 
